@@ -201,18 +201,17 @@ def naming(repo: Repo, rep, P: str):
             rep.violation(f"{P}.R1", f"{rel}:UserDefinedProxy.{meth}", src[:120], f"proxy.{meth} must delegate to the per-instance controller", rel)
     # (c) reader key list
     mr = repo.cls("ModuleReader", module="rv.readers.module")
-    styp = norm(repo.own_method(mr, "process_STYP"))
-    want = "self._controller_keys += [f'user_defined_{i + 1}' for i in range(MAX_USER_DEFINED_CONTROLLERS)]"
-    if want in styp and "if mtype == 'MetaModule':" in styp:
-        imp = mr.file.imports.get("MAX_USER_DEFINED_CONTROLLERS")
-        if imp and imp[0] == MM:
-            rep.ok(f"{P}.R1", f"{mr.file.rel}:ModuleReader.process_STYP", want, "same names, same order, same MAX, appended after the attached generated controllers")
-        else:
-            rep.violation(f"{P}.R1", f"{mr.file.rel}:ModuleReader.process_STYP", f"MAX imported from {imp}", "the reader uses a different MAX", mr.file.rel)
+    from .. import order
+    kl = order.reader_key_list(repo)
+    scon = f"{mr.file.rel}:ModuleReader.process_STYP"
+    if kl.extra is None or kl.attached_first is None or kl.problems:
+        rep.inconclusive(f"{P}.R1", scon, kl.text[:200], f"construction of the CVAL key list not recognised: {kl.problems[:2]}", f"{mr.file.rel}:{kl.where}")
+    elif kl.extra == expected and kl.attached_first and ("MetaModule" in kl.extra_cond):
+        rep.ok(f"{P}.R1", scon, kl.text[:160], "same names, same order, same MAX, appended after the attached generated controllers")
     else:
-        rep.violation(f"{P}.R1", f"{mr.file.rel}:ModuleReader.process_STYP", styp[-260:],
+        rep.violation(f"{P}.R1", scon, kl.text[:200],
                       "the reader must append user_defined_1…MAX (in order) to the controller keys of a MetaModule: stored values "
-                      "are applied by position", mr.file.rel)
+                      f"are applied by position (got {len(kl.extra)} names {kl.extra[:2]}… under `{kl.extra_cond}`)", f"{mr.file.rel}:{kl.where}")
     # generated controllers all attached (so they occupy the first n_gen positions on both sides)
     if all(c.attached for c in gen):
         rep.ok(f"{P}.R1", f"src/python/rv/modules/base/metamodule.py:BaseMetaModule", f"{n_gen} generated controllers, all attached", nontrivial=False)
@@ -386,15 +385,20 @@ def attachment(repo: Repo, rep, P: str):
     rep.count("attach_flag_store_sites", n, 3)
     # reader: recompute before applying stored values
     mr = repo.cls("ModuleReader", module="rv.readers.module")
+    from .. import inline
     send = repo.own_method(mr, "process_SEND")
-    body = [norm(x) for x in stmts_of(send)]
-    try:
-        i_rc = next(i for i, x in enumerate(body) if "recompute_controller_attachment()" in x)
-        i_loop = next(i for i, x in enumerate(body) if "self._cvals" in x)
-        i_ld = next(i for i, x in enumerate(body) if "_load_last_chunk()" in x)
-        ok = i_ld < i_rc < i_loop and "update_user_defined_controllers()" in body[i_rc]
-    except StopIteration:
+    flat = inline.flatten(repo, mr, send, exclude=("_load_last_chunk",))
+
+    def first_call(attr: str):
+        c = [n for n in ast.walk(flat) if isinstance(n, ast.Call) and isinstance(n.func, ast.Attribute) and n.func.attr == attr]
+        return min((inline.pos(x) for x in c), default=None)
+    p_ld, p_up, p_rc, p_set = first_call("_load_last_chunk"), first_call("update_user_defined_controllers"), \
+        first_call("recompute_controller_attachment"), first_call("set_raw")
+    body = [norm(x) for x in stmts_of(flat)]
+    if None in (p_up, p_rc, p_set):
         ok = False
+    else:
+        ok = p_up < p_set and p_rc < p_set and (p_ld is None or p_ld < p_up)
     if ok:
         rep.ok(f"{P}.R3", f"{mr.file.rel}:ModuleReader.process_SEND", "load last chunk → update_user_defined_controllers → recompute attachment → apply CVALs",
                "user controllers are typed and attached before their stored values are applied")
